@@ -36,10 +36,12 @@ TREES = {
                       _dir("lib.sol", [_file("A.sol", "c2"), _file("T.t.sol", "c1")]),
                       _file("notes.txt", "c1"),
                       _file("C.sol", "c3"),
-                      _file("N.sol", "c7")]},
+                      _file("N.sol", "c7"),
+                      # random programs (bin/randsol.py, fixed indexes) below a dotted directory name
+                      _dir("v0.8", [_file("R1.sol", "g1"), _file("R2.sol", "g2"), _dir("deep", [_file("R3.sol", "g3")])])]},
     "contracts": {"entries": [_file("B.sol", "c2")]},
     "E": {"entries": []},
-    "S": {"entries": [_file("D.sol", "c1"), _file("D.t.sol", "c2")]},
+    "S": {"entries": [_file("D.sol", "c1"), _file("D.t.sol", "c2"), _file("R4.sol", "g4")]},
 }
 
 
@@ -100,11 +102,17 @@ def execute(hb, sb, items, workdir):
     """Runs the real binary on concrete inputs [{"inp": [flag, toml (real names), contracts], "rep0": absent|stale}];
     returns (records for TV_Solstat, path of the world file)."""
     cat = bindrive.extract_catalogue()
+    import randsol
     cont = {c: open(os.path.join(DIRWALK, c + ".sol"), "rb").read() for c in ("c1", "c2", "c3", "c7")}
+    for gi in range(1, 5):
+        cont["g%d" % gi] = randsol.program("sys", gi).encode("utf-8")
     # per-file results in isolation, for every documented pattern
     res = {}
     for c in cont:
-        out = vlib.harness(hb, ["analyze", os.path.join(DIRWALK, c + ".sol")])
+        iso = os.path.join(workdir, "iso_%s.sol" % c)
+        with open(iso, "wb") as f:
+            f.write(cont[c])
+        out = vlib.harness(hb, ["analyze", iso])
         rr = out["extra"]["results"]
         res[c] = {}
         for k in bindrive.CATS:
